@@ -24,10 +24,10 @@ type sval struct {
 	b bool
 }
 
-func svInt(x int64) sval    { return sval{k: 'i', i: x} }
-func svUint(x uint64) sval  { return sval{k: 'u', u: x} }
+func svInt(x int64) sval     { return sval{k: 'i', i: x} }
+func svUint(x uint64) sval   { return sval{k: 'u', u: x} }
 func svFloat(x float64) sval { return sval{k: 'f', f: x} }
-func svBool(x bool) sval    { return sval{k: 'b', b: x} }
+func svBool(x bool) sval     { return sval{k: 'b', b: x} }
 
 type sinterp struct {
 	env  map[ssa.Value]sval
